@@ -45,7 +45,11 @@ def model_domain(runner, cfg, tier):
                    p.udp(5002, 22, b"SSH-2.0-x\n"), p.udp(5003, 9, ghost(b"tail")), p.udp(5004, 111, rpc_call(0x12345678, vers=2, proc=3)),
                    p.udp(5004, 111, rpc_call(0x12345679, vers=4, proc=3)), p.udp(5004, 111, rpc_call(0x1234567a, vers=9, proc=3)),
                    p.udp(5004, 111, rpc_call(0x1234567b, vers=3, proc=0)), p.udp(5004, 111, rpc_call(0x1234567c, prog=100003, vers=3, proc=1)),
-                   p.udp(5004, 111, rpc_call(0x1234567d, vers=2, proc=9)), p.udp(5005, 7, b"no protocol at all")]
+                   p.udp(5004, 111, rpc_call(0x1234567d, vers=2, proc=9)), p.udp(5005, 7, b"no protocol at all"),
+                   p.udp(5004, 111, rpc_call(0x1234567e, vers=2, proc=4)), p.udp(5004, 65535, rpc_call(0x1234567f, vers=4, proc=4)),
+                   p.udp(5007, 445, smb1_negotiate([b"LANMAN1.0", b"NT LM 0.12"], mid=7, uid=9)), p.udp(5007, 445, smb1_session_setup(tid=3)),
+                   p.udp(5007, 445, smb2_negotiate([0x0210, 0x0202, 0x0311], message_id=77)), p.udp(5007, 445, smb2_session_setup(session_id=5)),
+                   p.udp(5007, 445, smb1_negotiate(flags=0x98)), p.udp(5007, 445, smb2_negotiate([0x1234]))]
     frames += [p4.udp(5006, 53, dns_query(0x4242, 0x0100, [(b"www", b"example", b"org")])),
                p4.udp(5006, 53, dns_query(0x4243, 0x0000, [(b"a",), (b"bb", b"c")])),
                p4.udp(5006, 53, dns_query(0x4244, 0x8180, [(b"a",)])), p4.udp(5006, 53, dns_query(0x4245, 0x0100, [(b"a",)], qtypes=[(16, 1)])),
